@@ -142,18 +142,27 @@ Theorem exactly_one_stop_any_context : forall g x o f c, orders_ok g x o = true 
 Proof. exact l_exactly_one_stop_any_context. Qed.
 Print Assumptions exactly_one_stop_any_context.
 
-(* ---- configuration reloads (collector.go Run / reloadConfiguration) ------------------------------
-   For EVERY sequence of configurations (each with its own topology, orders and failing calls):
-   the services that get built are a prefix of the sequence and each of them sees exactly ONE life
-   time [collector_run] — one Start, one Shutdown, also when the reload fails because the retiring
-   service's Shutdown or the new service's Start returns an error.  Hence every theorem above
-   (exactly_once in particular) holds for every generation. *)
-Theorem reload_generations : forall gens,
-  exists k, k <= length gens /\ collector_run_reload gens = map gen_run (firstn k gens).
+(* ---- configuration reloads and provider faults (collector.go Run / reloadConfiguration / shutdown) ---
+   For EVERY sequence of configurations (each with its own topology, orders and failing calls) and
+   EVERY behaviour of the configuration provider (its Shutdown fails, the close function of any
+   retrieved configuration fails): the services that get built are a prefix of the sequence and each
+   of them sees exactly the call sequence of ONE life time [collector_run] — one Start, one complete
+   Shutdown — also when the reload fails (retiring service's Shutdown or new service's Start returns an
+   error, the configuration cannot be re-resolved) and when the provider fails while the collector
+   stops.  Hence exactly_once and the ordering theorems hold for every generation. *)
+Theorem reload_generations_events : forall pf gens,
+  exists k, k <= length gens /\ map fst (collector_run_reload pf gens) = map gen_log (firstn k gens).
+Proof. exact l_reload_generations_events. Qed.
+Print Assumptions reload_generations_events.
+
+(* with a well-behaved provider the reported errors, too, are exactly those of the life times *)
+Theorem reload_generations : forall gens, Forall (fun n => gn_close_fails n = false) gens ->
+  exists k, k <= length gens /\ collector_run_reload false gens = map gen_run (firstn k gens).
 Proof. exact l_reload_generations. Qed.
 Print Assumptions reload_generations.
 
-Theorem reload_first_generation : forall g0 rest, exists tl, collector_run_reload (g0 :: rest) = gen_run g0 :: tl.
+Theorem reload_first_generation : forall pf g0 rest,
+  exists tl, map fst (collector_run_reload pf (g0 :: rest)) = gen_log g0 :: tl.
 Proof. exact l_reload_first. Qed.
 Print Assumptions reload_first_generation.
 
